@@ -309,6 +309,29 @@ Example C13_swisscard_statement_wf :
              [100]; []; []; []; []; [68]; []]]%Z = true.
 Proof. vm_compute. reflexivity. Qed.
 
+(* cumulus: the records, read as entries by cum_entries (a comment row belongs to the booking or
+   rounding row before it; every other record is a well-formed booking row, rounding row or ignored
+   record; no comment row before the first row or after an ignored record); per booking/rounding row
+   +Gutschrift resp. -Belastung booked from Expenses:TBD to the account, the comments appended to the
+   description *)
+Theorem C13_cumulus_stdout : forall flag acct recs,
+  account_flag flag = AAcc acct -> cum_statement_wf recs = true ->
+  exists out, cum_statement_output acct recs = Some out /\ run_cumulus flag (map CRec recs) = mkRun out SOk.
+Proof. exact cumulus_stdout. Qed.
+Print Assumptions C13_cumulus_stdout.
+
+(* cum_entries is the inverse of cum_records on well-formed entries: the records of
+   C13_cumulus_entries_wf are read as those entries *)
+Example C13_cumulus_statement_wf :
+  let d1 := [50;50;46;48;56;46;50;48;50;48]%Z in      (* 22.08.2020 *)
+  let d2 := [50;52;46;48;56;46;50;48;50;48]%Z in      (* 24.08.2020 *)
+  let es := [CumIgnored [[86]; [66]; [71]; [66]]%Z;
+             CumIgnored [d1; [73;104;114;101]; [49;39;50;51;52;46;53;54]; []]%Z;
+             CumBooking [d1; d2; [68;101;115;99]; []; [49;39;50;51;51;46;52;53]]%Z [[70;88]%Z];
+             CumRounding [d2; s_rund; [48;46;48;50]; []]%Z []] in
+  cum_entries (flat_map cum_records es) = Some es.
+Proof. vm_compute. reflexivity. Qed.
+
 (* swisscard: the importer's one-pass replacer = remove every "CHF", then every "'" *)
 Theorem C13_swisscard_amount_text : forall s, sc_clean s = sc_amount_text s.
 Proof. exact sc_clean_spec. Qed.
